@@ -100,7 +100,7 @@ def edit(rng, stmts, term, kinds):
     stmts = [rd.clean(s) for s in stmts]
     term = rd.clean(term)
     outs = [i for i, s in enumerate(stmts) if s["k"] == "out"]
-    kind = rng.choice(["arg", "drop", "add", "dup", "swap", "result", "raise", "kwarg"])
+    kind = rng.choice(["arg", "drop", "add", "dup", "swap", "result", "raise", "kwarg", "discard", "discard"])
     if kind == "arg" and outs:
         s = stmts[rng.choice(outs)]
         if s["args"]:
@@ -121,6 +121,10 @@ def edit(rng, stmts, term, kinds):
     elif kind == "swap" and len(outs) >= 2:
         i, j = rng.sample(outs, 2)
         stmts[i], stmts[j] = stmts[j], stmts[i]
+    elif kind == "discard":
+        # the REPLAYED code asks for the recording to be discarded on its way (there is none while replaying): it sends
+        # exactly what it sent before, so nothing may differ
+        stmts.insert(rng.randrange(len(stmts) + 1), {"k": "discard"})
     elif kind == "result":
         term = {"k": "ret", "e": {"lit": pv.s("OTHER RESULT")}}
     elif kind == "raise":
